@@ -265,6 +265,18 @@ def run_shard(ctx):
             rest = [x for x in pool if x not in (a, b)]
             query(ctx, g, gd, a, b, sorted(rng.sample(rest, rng.randint(0, min(2, len(rest))))), gkey)
     ctx.extras["graphs_with_more_than_32_directed_edges"] = nbig
+    # long sparse graphs: the only connection between the two ends has 11 or more edges
+    from .c20 import long_graph
+
+    for _ in range(ctx.share({"quick": 80, "thorough": 2000}[ctx.tier])):
+        gd = long_graph(rng)
+        g = gg.to_nx(gd)
+        gkey = gg.key(gd)
+        nodes = gd["nodes"]
+        for a, b in [(nodes[0], nodes[-1])] + [tuple(rng.sample(nodes, 2)) for _q in range(3)]:
+            rest = [x for x in nodes if x not in (a, b)]
+            for C in ([], rng.sample(rest, 1), rng.sample(rest, min(len(rest), rng.randint(1, 3)))):
+                query(ctx, g, gd, a, b, sorted(C), gkey)
     # the separations the enumerator publishes (with and without a size limit) are separations
     for _ in range(ctx.share({"quick": 600, "thorough": 12000}[ctx.tier])):
         gd = gg.random_admg(rng, rng.randint(4, 6))
